@@ -211,6 +211,8 @@ class MPEGPacketPMT(MPEGPacket):
         self.pcr_pid = _pcr & 0x1FFF
         self.program_info_len = _pil & 0xFFF
         _offset = struct.calcsize(MPEGPacketPMT.FMT) + struct.calcsize(MPEGPacketPMT.FMT_POINTER) + _pointer
+        self.descriptor_tags = []
+        self.streams = []
         if self.program_info_len > 0:
             descriptor_tag_buffer = self.payload[_offset : _offset + self.program_info_len]
             while len(descriptor_tag_buffer) > 0:
